@@ -487,14 +487,30 @@ func main() {
 	}
 	mk := func() rset {
 		k := rng.IntN(9)
+		large := rng.IntN(6) == 0
+		if large {
+			// now and then a set many times the size of the others (a token's scope against a request's)
+			k = 9 + rng.IntN(40)
+			run.Count("random_large_sets", 1)
+		}
 		m := map[RS]struct{}{}
 		var lst []RS
 		for i := 0; i < k; i++ {
 			r := randRS()
+			if large && rng.IntN(3) > 0 {
+				r = RS{ResourceType: "repository", Resource: alphabet[rng.IntN(len(alphabet))], Action: []string{"pull", "push"}[rng.IntN(2)]}
+			}
 			m[r] = struct{}{}
 			lst = append(lst, r)
 			if rng.IntN(4) == 0 {
 				lst = append(lst, r)
+			}
+			if r.ResourceType == "repository" && (r.Action == "pull" || r.Action == "push") && rng.IntN(3) == 0 {
+				// the other action on the same repository
+				o := r
+				o.Action = map[string]string{"pull": "push", "push": "pull"}[r.Action]
+				m[o] = struct{}{}
+				lst = append(lst, o)
 			}
 		}
 		sc := ociauth.NewScope(lst...)
